@@ -279,6 +279,28 @@ Check C17_scalar_literal_old_refuted :
   (exists s d, xv_exec_valid xv_apollo_params s d = true /\ xk_old_r_values_correct_type s d = false).
 Print Assumptions C17_scalar_literal_old_refuted.
 
+(* A third repaired deviation (validation/operation.rs validate_subscription, fixes/fix2-c17-1.patch): the root
+   selection set of a subscription was walked through inline fragments and named fragments whatever their type
+   conditions.  The repaired code follows xv_exec_valid (CollectFields consults DoesFragmentTypeApply; apollo's
+   own rule against @skip/@include at the root reads the same walk), carried by the tie with no class filtering
+   it; the deviation as it was (Exec/Known.v: xk_old_r_subscription_single_root, xk_old_r_subscription_no_skip_include)
+   differs from the specification on the former witness `subscription { b ... on I { ... on O { c } } }` (one root
+   field, was rejected as two) and on `subscription { b ... on I { ...F } } fragment F on O { c @skip(if: true) }`. *)
+Theorem C17_subscription_conditions_old_refuted :
+  (exists s d, xv_exec_valid xv_apollo_params s d = true /\
+               xk_old_r_subscription_single_root xv_apollo_params s d = false) /\
+  (exists s d, xv_exec_valid xv_apollo_params s d = true /\
+               xk_old_r_subscription_single_root xv_apollo_params s d = false /\
+               xk_old_r_subscription_no_skip_include xv_apollo_params s d = false).
+Proof. exact kx_subscription_old_refuted. Qed.
+Check C17_subscription_conditions_old_refuted :
+  (exists s d, xv_exec_valid xv_apollo_params s d = true /\
+               xk_old_r_subscription_single_root xv_apollo_params s d = false) /\
+  (exists s d, xv_exec_valid xv_apollo_params s d = true /\
+               xk_old_r_subscription_single_root xv_apollo_params s d = false /\
+               xk_old_r_subscription_no_skip_include xv_apollo_params s d = false).
+Print Assumptions C17_subscription_conditions_old_refuted.
+
 (* ---------- non-vacuity and witnesses ---------- *)
 Definition ex_A : str := [65]. Definition ex_B : str := [66]. Definition ex_C : str := [67].
 Definition ex_Q : str := [81]. Definition ex_f : str := [102]. Definition ex_a : str := [97]. Definition ex_v : str := [118].
